@@ -145,9 +145,17 @@ def run(chk):
                        ("value read by find_credentials (%s) is written back by %s after suspending in: %s — two overlapping ceremonies read the same counter and both store counter+1"
                         % (where(b, r.call_bb), wm, [short(a.callee() or "?") for a in between])) if between else "no foreign suspension point between read and write")
     chk.require("R4 read-modify-write atomicity", "R4|instances", n_r4 >= 1, AUTH, "no read-modify-write instance found (get_assertion's counter update expected)")
+    # ---------------- R5: a counter is handed out only if the shared store took it
+    from .common import accepted_counter_cut
+    ga = ceremony(p, "get_assertion")
+    if chk.require("R5 reported counter was accepted by the store", "R5|get_assertion", ga, AUTH, "get_assertion not found"):
+        ok5, upd_ok, no_counter = accepted_counter_cut(p, ga)
+        chk.ob("R5 reported counter was accepted by the store", "R5|get_assertion|assertion-needs-accepted-write", ok5, where(ga),
+               "every Ok assertion lies behind (credential has no counter) or (update_credential returned Ok): %s — otherwise a refused or failed write-back (a store that rejects stale counters, a store outage) still yields an assertion, and the same counter is handed out again" % ok5)
     chk.floor("R1", 16, default=0)
     chk.floor("R2", 5)
     chk.floor("R3", 1)
     chk.floor("R4", 1)
+    chk.floor("R5", 1)
     chk.assumptions = ["tokio's Mutex/RwLock are fair and their futures are cancel-safe", "user-supplied stores are not re-entrant into the authenticator",
                        "schedules themselves are not explored (static lock-order / atomicity rules only)"]
